@@ -399,6 +399,13 @@ func (rs *reflState) install() {
 							if rs.valid(d, reflKey(arg)) == 1 {
 								n["rv:"+key] = 1
 							}
+							// the result is the argument or a fresh ValueOf / MakeSlice / Append value, none of which has
+							// kind Ptr or Interface: what is known of the argument in that respect holds for the result
+							for _, kn := range []string{"Interface", "Ptr"} {
+								if v, ok := d[fmt.Sprintf("rk:%s:%d", reflKey(arg), rs.kinds[kn])]; ok && v == 0 {
+									n[fmt.Sprintf("rk:%s:%d", key, rs.kinds[kn])] = 0
+								}
+							}
 						})
 					}
 					if rs.retValid(g) {
@@ -519,6 +526,15 @@ func (rs *reflState) retParam(g *ssa.Function) (int, bool) {
 			}
 		case *ssa.Call:
 			nm := calleeName(x)
+			if nm == "reflect.ValueOf" && len(x.Call.Args) == 1 {
+				// ValueOf of a value that is not itself an interface or pointer (a number, a string) is always valid
+				if mi, ok := x.Call.Args[0].(*ssa.MakeInterface); ok {
+					switch mi.X.Type().Underlying().(type) {
+					case *types.Basic:
+						return
+					}
+				}
+			}
 			if nm != "reflect.MakeSlice" && nm != "reflect.Append" {
 				okAll = false
 			}
@@ -907,45 +923,68 @@ func runC14(c *Ctx) {
 	// ---- R4 every stored value is nil (guarded) or the coercer's result
 	r4 := c.Rule("R4", "every value stored in the result comes out of the coercer", 2)
 	if resMap != nil {
-		for _, w := range c14ResultWrites(p, vv, resMap) {
-			in, wfn := ssa.Instruction(w.mu), w.fn
-			val := w.mu.Value
-			if isNilConst(val) {
-				// under v.Type.NonNull == false
-				st := na.stateAt(in)
-				okN := true
-				for _, d := range st {
-					found := false
-					for k, v := range d {
-						if strings.HasPrefix(k, "nn:") && v == 0 {
-							found = true
-						}
-					}
-					if !found {
-						okN = false
+		nullableAt := func(in ssa.Instruction) bool {
+			st := na.stateAt(in)
+			okN := true
+			for _, d := range st {
+				found := false
+				for k, v := range d {
+					if strings.HasPrefix(k, "nn:") && v == 0 {
+						found = true
 					}
 				}
-				if okN {
-					r3.OK("nil stored for a variable at "+p.Pos(in.Pos()), "under NonNull == false")
-					r4.OK("result[var] = nil at "+p.Pos(in.Pos()), "explicit null for a nullable variable")
-				} else {
-					r3.Fail(in.Pos(), p.FuncName(wfn), "nil stored without a NonNull test", "a null variable value is accepted although the variable's type may be non-null")
+				if !found {
+					okN = false
 				}
-				continue
 			}
-			// MakeInterface / call rval.Interface() where rval is the coercer's result
-			okC := false
+			return okN
+		}
+		// judge: the value comes out of the coercer — nil under NonNull == false, validateVarType(...).Interface(), or the
+		// first result of a helper all of whose success returns are one of these
+		var judge func(val ssa.Value, in ssa.Instruction, wfn *ssa.Function, depth int) bool
+		judge = func(val ssa.Value, in ssa.Instruction, wfn *ssa.Function, depth int) bool {
+			if isNilConst(val) {
+				if nullableAt(in) {
+					r3.OK("nil stored for a variable at "+p.Pos(in.Pos()), "under NonNull == false")
+					return true
+				}
+				r3.Fail(in.Pos(), p.FuncName(wfn), "nil stored without a NonNull test", "a null variable value is accepted although the variable's type may be non-null")
+				return true // reported under R3
+			}
 			if call, ok := stripConv(val).(*ssa.Call); ok {
 				if name, recv, _, ok := reflMethod(call); ok && name == "Interface" {
 					if ex, ok := recv.(*ssa.Extract); ok {
 						if cc, ok := ex.Tuple.(*ssa.Call); ok && cc.Call.StaticCallee() == vt {
-							okC = true
+							return true
 						}
 					}
 				}
 			}
-			if okC {
-				r4.OK("result[var] = validateVarType(...).Interface() at "+p.Pos(in.Pos()), "")
+			if ex, ok := stripConv(val).(*ssa.Extract); ok && ex.Index == 0 && depth < 2 {
+				if cc, ok := ex.Tuple.(*ssa.Call); ok {
+					h := cc.Call.StaticCallee()
+					if h != nil && h.Pkg == vt.Pkg && len(h.Blocks) > 0 && h.Signature.Results().Len() >= 2 {
+						all, n := true, 0
+						for _, ret := range returnsOf(h) {
+							vals := returnValues(ret)
+							if len(vals) < 2 || !isNilConst(stripConv(vals[len(vals)-1])) {
+								continue // error return: VariableValues does not store
+							}
+							n++
+							if !judge(vals[0], ret, h, depth+1) {
+								all = false
+							}
+						}
+						return all && n > 0
+					}
+				}
+			}
+			return false
+		}
+		for _, w := range c14ResultWrites(p, vv, resMap) {
+			in, wfn := ssa.Instruction(w.mu), w.fn
+			if judge(w.mu.Value, in, wfn, 0) {
+				r4.OK("result[var] at "+p.Pos(in.Pos()), "nil for a nullable variable, or validateVarType(...).Interface() (directly or through a helper's success returns)")
 			} else {
 				r4.Fail(in.Pos(), p.FuncName(wfn), "value stored in the result without passing the coercer", "a variable value (for example an evaluated default) is returned to the caller without being checked and coerced against the declared type: the result may not conform (single value for a list type, wrong enum value, missing required input field)")
 			}
